@@ -19,7 +19,7 @@ sys.path.insert(0, SRC)
 os.environ.setdefault("JAX_PLATFORMS", "cpu")
 os.environ.setdefault("JAX_ENABLE_X64", "1")
 os.environ.setdefault("PYTHONHASHSEED", "0")
-os.environ["FDTDX_VERIF"] = "1"
+os.environ["FDTDX_VERIF"] = "0"  # switched to "1" below for checks that declare HOOKS = True
 os.environ["FDTDX_SRC"] = SRC
 os.environ["PYTHONPATH"] = SRC + os.pathsep + VERIF + os.pathsep + os.environ.get("PYTHONPATH", "")
 
@@ -38,6 +38,8 @@ def main() -> int:
 
     try:
         mod = importlib.import_module(f"checks.{a.id}")
+        if getattr(mod, "HOOKS", False):
+            os.environ["FDTDX_VERIF"] = "1"
         ctx = Ctx(a.id, a.tier, seed, level=getattr(mod, "LEVEL", "model_checking"))
         if getattr(mod, "NEEDS_FDTDX", True):
             import fdtdx
